@@ -71,13 +71,19 @@ type collector struct {
 	done   chan struct{}
 }
 
-func collect(ch <-chan *logline.LogLine) *collector {
+func collect(ch <-chan *logline.LogLine) *collector { return collectSlow(ch, 0) }
+
+// collectSlow is a consumer that takes d over every line.
+func collectSlow(ch <-chan *logline.LogLine, d time.Duration) *collector {
 	c := &collector{done: make(chan struct{})}
 	go func() {
 		for l := range ch {
 			c.mu.Lock()
 			c.lines = append(c.lines, l)
 			c.mu.Unlock()
+			if d > 0 {
+				time.Sleep(d)
+			}
 		}
 		c.mu.Lock()
 		c.closed = true
